@@ -173,6 +173,24 @@ func (g *FuncGen) execCall(instr ssa.Instruction, c *ssa.CallCommon, v ssa.Value
 		argVals = append(argVals, a)
 	}
 	sig := c.Signature()
+	if c.IsInvoke() && g.c != nil && g.c.Opts["queued_only"] != "" {
+		// "opt queued_only <Interface> [m1,m2,...]": this function must not call methods of the interface
+		// directly (only the listed read-only ones); everything else has to go through a queued closure
+		f := strings.Fields(g.c.Opts["queued_only"])
+		if named, ok := c.Value.Type().(*types.Named); ok && named.Obj().Name() == f[0] {
+			allowed := false
+			if len(f) > 1 {
+				for _, m := range strings.Split(f[1], ",") {
+					if m == c.Method.Name() {
+						allowed = true
+					}
+				}
+			}
+			if !allowed {
+				g.oblig("serialised", c.Method.Name(), "false", pos, nil, "direct call of "+f[0]+"."+c.Method.Name()+" outside a queued request closure")
+			}
+		}
+	}
 	if c.IsInvoke() {
 		ct, sf := g.env.lookupIfaceContract(c.Method, c.Value.Type())
 		if ct != nil {
@@ -442,6 +460,10 @@ func (g *FuncGen) applyContract(callee *ssa.Function, ct *Contract, sf *SpecFile
 	rn := resultNames(sig, ct)
 	for i, r := range res {
 		cxPost.vars[rn[i]] = sval{t: r, typ: sig.Results().At(i).Type(), kind: "val"}
+	}
+	if ct.Opts["count_sends"] != "" {
+		// the callee's own send counter is not visible to the caller
+		cxPost.vars["sends"] = sval{t: g.declare("callee_sends", "Int"), kind: "int"}
 	}
 	for _, fv := range ct.Fresh {
 		if !(ct.Extern || ct.Trusted) {
@@ -793,6 +815,21 @@ func (g *FuncGen) noteSend(ch ssa.Value) {
 	if _, ok := g.cellSort[key]; !ok {
 		g.cellSort[key] = "Int"
 		g.cellType[key] = types.Typ[types.Int]
+	}
+	if target := g.c.Opts["count_sends"]; target != "true" {
+		// count only sends on the channel named by the option (an expression over the entry state)
+		e, err := ParseExpr(target)
+		if err != nil {
+			panic(specErr{err.Error()})
+		}
+		cx := g.newSpecCtx(g.entry, g.entry)
+		t := cx.eval(e)
+		if t.typ != nil && !types.Identical(t.typ, ch.Type()) {
+			// a channel of another type can never be the counted channel
+			return
+		}
+		g.update(key, fmt.Sprintf("(+ %s (ite (= %s %s) 1 0))", g.get(g.st, key), g.val(ch), t.t))
+		return
 	}
 	g.update(key, fmt.Sprintf("(+ %s 1)", g.get(g.st, key)))
 }
